@@ -8,6 +8,7 @@ package html
 // and the result can be truncated at any byte.
 
 import (
+	"fmt"
 	"io"
 	"strings"
 
@@ -183,12 +184,7 @@ func soupStartTag(t *rapid.T) string {
 	var sb strings.Builder
 	sb.WriteByte('<')
 	sb.WriteString(soupFlipCase(t, rapid.SampledFrom(soupTagNames).Draw(t, "tag")))
-	na := rapid.IntRange(0, 3).Draw(t, "nattr")
-	if na == 3 {
-		na = rapid.IntRange(0, 3).Draw(t, "nattr2")
-	} else if na > 1 {
-		na = 0
-	}
+	na := rapid.SampledFrom([]int{0, 0, 0, 0, 0, 1, 1, 1, 2, 2, 3, 4}).Draw(t, "nattr")
 	for i := 0; i < na; i++ {
 		sb.WriteString(soupAttr(t))
 	}
@@ -303,8 +299,14 @@ func soupPiece(prof int) *rapid.Generator[string] {
 
 // soupGen draws an input: grammar-based soup (optionally truncated at a random
 // byte), bytes over a markup-dense alphabet, or arbitrary bytes.
-func soupGen(t *rapid.T, prof int) []byte {
+func soupGen(t *rapid.T, prof int) []byte { return soupGenMode(t, prof, false) }
+
+// soupGenMode with markupOnly skips the two raw-bytes modes.
+func soupGenMode(t *rapid.T, prof int, markupOnly bool) []byte {
 	mode := rapid.IntRange(0, 9).Draw(t, "mode")
+	if markupOnly && mode < 2 {
+		mode = 3
+	}
 	switch {
 	case mode == 0:
 		return vp.Bytes(0, 48).Draw(t, "bytes")
@@ -315,12 +317,20 @@ func soupGen(t *rapid.T, prof int) []byte {
 	if prof == soupProfTree {
 		maxPieces = 40
 	}
-	pieces := rapid.SliceOfN(soupPiece(prof), 0, maxPieces).Draw(t, "pieces")
+	pieces := rapid.SliceOfN(soupPiece(prof), 1, maxPieces).Draw(t, "pieces")
 	s := strings.Join(pieces, "")
 	if mode == 2 && len(s) > 0 {
 		s = s[:rapid.IntRange(0, len(s)).Draw(t, "trunc")]
 	}
 	return []byte(s)
+}
+
+// soupQ quotes b for an error message, abbreviating long inputs.
+func soupQ(b []byte) string {
+	if len(b) <= 400 {
+		return fmt.Sprintf("%q", b)
+	}
+	return fmt.Sprintf("%q...(%d bytes omitted)...%q", b[:180], len(b)-360, b[len(b)-180:])
 }
 
 // soupBalanced reports whether the tag soup is "well nested" by a naive
